@@ -30,6 +30,12 @@ var Seeds = map[string]hx.Seed{
 	"nested": {Name: "nested", Prog: []apix.Op{beginW, op("mkb", nil, "p", ""), op("mkb", P("p"), "q", ""), {K: "fill", P: P("p", "q"), Key: "k", V: "M", N: 5},
 		op("mkb", P("p", "q"), "p", ""), op("put", P("p", "q", "p"), "a", "s"), op("mkb", P("p", "q"), "q", ""), {K: "fill", P: P("p", "q", "q"), Key: "k", V: "M", N: 5},
 		op("mkb", nil, "q", ""), op("put", P("q"), "a", "s"), {K: "seqset", P: P("p", "q"), N: 3}, commit}},
+	// a free list longer than one page (more than 126 free ids at page size 1024): the freelist itself has overflow pages
+	"bigfree": {Name: "bigfree", Prog: []apix.Op{beginW, op("mkb", nil, "p", ""), {K: "fill", P: P("p"), Key: "k", V: "M", N: 420}, commit,
+		beginW, {K: "drain", P: P("p")}, op("put", P("p"), "a", "s"), commit,
+		// one more small commit: the freelist is rewritten once the drained pages have been released, which moves it to
+		// the lowest free pages - where the next commit's allocations look first
+		beginW, op("put", P("p"), "b", "s"), commit}},
 	"freeruns": {Name: "freeruns", Prog: []apix.Op{beginW, op("mkb", nil, "p", ""), {K: "fill", P: P("p"), Key: "k", V: "M", N: 12}, commit,
 		beginW, op("mkb", nil, "q", ""), {K: "fill", P: P("q"), Key: "k", V: "X", N: 3}, commit,
 		beginW, {K: "drain", P: P("p")}, commit, beginW, op("put", P("p"), "a", "s"), op("delb", nil, "q", ""), commit}},
@@ -86,9 +92,9 @@ func flatAlphabet(keys, classes []string, macros bool) func(x *apix.Exec, t *hx.
 			}
 			ops = append(ops, op("del", pp, k, ""))
 		}
-		ops = append(ops, op("get", pp, keys[0], ""))
+		ops = append(ops, op("get", pp, keys[0], ""), op("cdel", pp, keys[0], ""))
 		if macros {
-			ops = append(ops, apix.Op{K: "fill", P: pp, Key: "k", V: "M", N: 9}, apix.Op{K: "drain", P: pp})
+			ops = append(ops, apix.Op{K: "fill", P: pp, Key: "k", V: "M", N: 9}, apix.Op{K: "drain", P: pp}, apix.Op{K: "thin", P: pp, N: 3}, apix.Op{K: "thin", P: pp, N: 2})
 			ops = append(ops, apix.Op{K: "seqnext", P: pp}, apix.Op{K: "seqset", P: pp, N: 9})
 		}
 		return ops
@@ -214,5 +220,5 @@ func lifeAlphabet(readers int, bodies []apix.Op, reopen []apix.Cfg, maxTx int) f
 
 var lifeBodies = []apix.Op{
 	op("put", P("p"), "a", "X"), op("put", P("p"), "b", "s"), op("del", P("p"), "a", ""),
-	{K: "fill", P: P("p"), Key: "k", V: "M", N: 6}, {K: "drain", P: P("p")},
+	{K: "fill", P: P("p"), Key: "k", V: "M", N: 6}, {K: "drain", P: P("p")}, {K: "thin", P: P("p"), N: 3},
 }
